@@ -6,6 +6,7 @@
 package main
 
 import (
+	"fmt"
 	"regexp"
 	"strings"
 
@@ -40,6 +41,63 @@ func stripPos(d []string) []string {
 	return out
 }
 
+// family builds the revision family: batch cases (one per file subset) and, for each, every
+// permutation with every intermediate Process() position.
+func family() (batch, incr []rescorr.Case) {
+	files := map[string]string{
+		"lib@2019-01-01.yang": `module lib { namespace "urn:lib"; prefix l; revision 2019-01-01; typedef t { type int8; } grouping g { leaf from2019 { type t; } } }`,
+		"lib@2020-02-02.yang": `module lib { namespace "urn:lib"; prefix l; revision 2020-02-02; typedef t { type string; } grouping g { leaf from2020 { type t; } } }`,
+		"lib.yang":            `module lib { namespace "urn:lib"; prefix l; typedef t { type boolean; } grouping g { leaf fromnorev { type t; } } }`,
+		"user.yang":           `module user { namespace "urn:user"; prefix u; import lib { prefix lib; } container c { uses lib:g; leaf x { type lib:t; } } }`,
+		"pinned.yang":         `module pinned { namespace "urn:pinned"; prefix p; import lib { prefix lib; revision-date 2019-01-01; } container c { uses lib:g; leaf x { type lib:t; } } }`,
+		"own.yang":            `module own { namespace "urn:own"; prefix o; include sub; container c { uses sg; } }`,
+		"sub@2019-01-01.yang": `submodule sub { belongs-to own { prefix o; } revision 2019-01-01; grouping sg { leaf s2019 { type string; } } }`,
+		"sub@2021-01-01.yang": `submodule sub { belongs-to own { prefix o; } revision 2021-01-01; grouping sg { leaf s2021 { type string; } } }`,
+	}
+	subsets := [][]string{
+		{"lib@2019-01-01.yang", "lib@2020-02-02.yang", "user.yang"},
+		{"lib@2019-01-01.yang", "lib@2020-02-02.yang", "user.yang", "pinned.yang"},
+		{"lib@2019-01-01.yang", "lib.yang", "user.yang"},
+		{"lib@2019-01-01.yang", "lib@2020-02-02.yang", "lib.yang", "user.yang"},
+		{"own.yang", "sub@2019-01-01.yang", "sub@2021-01-01.yang"},
+		{"lib@2020-02-02.yang", "user.yang", "own.yang", "sub@2021-01-01.yang"},
+	}
+	var permute func(a []string, k int, out *[][]string)
+	permute = func(a []string, k int, out *[][]string) {
+		if k == len(a) {
+			*out = append(*out, append([]string{}, a...))
+			return
+		}
+		for i := k; i < len(a); i++ {
+			a[k], a[i] = a[i], a[k]
+			permute(a, k+1, out)
+			a[k], a[i] = a[i], a[k]
+		}
+	}
+	for _, sub := range subsets {
+		texts := make([]string, len(sub))
+		for i, n := range sub {
+			texts[i] = files[n]
+		}
+		batch = append(batch, rescorr.Case{Names: append([]string{}, sub...), Texts: texts})
+		bi := len(batch) - 1
+		var perms [][]string
+		permute(append([]string{}, sub...), 0, &perms)
+		for _, p := range perms {
+			pt := make([]string, len(p))
+			for i, n := range p {
+				pt[i] = files[n]
+			}
+			for k := 1; k < len(p); k++ {
+				incr = append(incr, rescorr.Case{Names: append([]string{}, p...), Texts: pt,
+					Extra: map[string]string{"process_after": fmt.Sprint(k), "batch": fmt.Sprint(bi)}})
+			}
+			incr = append(incr, rescorr.Case{Names: append([]string{}, p...), Texts: pt, Extra: map[string]string{"batch": fmt.Sprint(bi)}})
+		}
+	}
+	return
+}
+
 func main() {
 	f := lib.ParseFlags()
 	if lib.IsChild() {
@@ -57,18 +115,85 @@ func main() {
 	}
 	cfg := gen.Default()
 	cfg.Submodules = false
-	var cases []rescorr.Case
+	var cases, incr []rescorr.Case
 	for i := 0; i < n; i++ {
 		r := f.Rand(i)
 		set := gen.Generate(r, cfg)
 		m := set.Mods[r.Intn(len(set.Mods))]
 		names, texts := set.Files()
 		cases = append(cases, rescorr.Case{Names: names, Texts: texts, Extra: map[string]string{"variant": "unsplit"}})
+		// the same set loaded incrementally, in a random order, with a Process() in between: which
+		// revision a bare name / an import denotes must not depend on when it was loaded
+		perm := r.Perm(len(names))
+		pn, pt := make([]string, len(names)), make([]string, len(names))
+		for a, b := range perm {
+			pn[a], pt[a] = names[b], texts[b]
+		}
+		incr = append(incr, rescorr.Case{Names: pn, Texts: pt, Extra: map[string]string{"variant": "incremental",
+			"process_after": fmt.Sprint(1 + r.Intn(len(names)))}})
 		sp := gen.Split(r, set, m)
 		names2, texts2 := sp.Files()
 		cases = append(cases, rescorr.Case{Names: names2, Texts: texts2, Extra: map[string]string{"variant": "split", "module": m.Name}})
 	}
+	// exhaustive family: two or three revisions of a library (each exporting a different grouping
+	// and typedef), users that import it with and without revision-date and a module that includes a
+	// submodule with two revisions; every load order x every position of an intermediate Process()
+	famBatch, famIncr := family()
+	outsFB := rescorr.RunAll(famBatch, f)
+	outsFI := rescorr.RunAll(famIncr, f)
+	var famCompared int64
+	for j, io := range outsFI {
+		var bi int
+		fmt.Sscanf(io.Case.Extra["batch"], "%d", &bi)
+		b := outsFB[bi]
+		if io.Crashed || b.Crashed {
+			res.AddDisagreement(lib.Disagreement{Kind: "crash", Input: io.Case, Go: io.CrashMsg + b.CrashMsg, SpecVerdict: "violates",
+				What: "goyang crashed or hung on the revision family", Replay: io.Case})
+			continue
+		}
+		if io.Skipped != "" || b.Skipped != "" {
+			continue
+		}
+		famCompared++
+		gi := lib.Project(io.Go.Dump, keys, true)
+		gb := lib.Project(b.Go.Dump, keys, true)
+		if d := rescorr.Diff(gi, gb); d != "" {
+			res.AddDisagreement(lib.Disagreement{Kind: "spec", Input: map[string]any{"incremental": io.Case, "batch": b.Case}, Go: gi, Model: gb,
+				SpecVerdict: "violates", What: "which revision a name denotes depends on when it was loaded (load order / a Process() in between): " + d, Replay: io.Case})
+		}
+		if io.Outside == "" {
+			m := lib.Project(io.Model, keys, true)
+			if d := rescorr.Diff(gi, m); d != "" && j%3 == 0 {
+				res.AddDisagreement(lib.Disagreement{Kind: "correspondence", Input: io.Case, Go: gi, Model: m,
+					What: "resolver differs from the model on the revision family: " + d, Replay: io.Case})
+			}
+		}
+	}
+	res.Distribution["revision_family_histories"] = famCompared
 	outs := rescorr.RunAll(cases, f)
+	// incremental variants: Go against Go (batch), position-free (load order moves nothing, but the
+	// comparison is shared with the split variant)
+	iouts := rescorr.RunAll(incr, f)
+	var incrCompared int64
+	for j, io := range iouts {
+		u := outs[2*j]
+		if io.Crashed {
+			res.AddDisagreement(lib.Disagreement{Kind: "crash", Input: io.Case, Go: io.CrashMsg, SpecVerdict: "violates",
+				What: "goyang crashed or hung on an incremental load", Replay: io.Case})
+			continue
+		}
+		if u.Crashed || u.Skipped != "" || io.Skipped != "" {
+			continue
+		}
+		incrCompared++
+		gi := lib.Project(io.Go.Dump, keys, true)
+		gb := lib.Project(u.Go.Dump, keys, true)
+		if d := rescorr.Diff(gi, gb); d != "" {
+			res.AddDisagreement(lib.Disagreement{Kind: "spec", Input: map[string]any{"incremental": io.Case, "batch": u.Case}, Go: gi, Model: gb,
+				SpecVerdict: "violates", What: "loading in another order with a Process() in between gives another result than the batch run: " + d, Replay: io.Case})
+		}
+	}
+	res.Distribution["incremental_vs_batch_compared"] = incrCompared
 	distinct := lib.NewDistinct()
 	var compared, withErr, outside int64
 	for i := 0; i+1 < len(outs); i += 2 {
